@@ -587,6 +587,37 @@ def probe_random_access_parents(le, dasz, info, abbrev, types, secs, out):
                                          'previous sibling %d; the sequential walk reports %r' % (yoff, got, X[0], parent[yoff]))
 
 
+def probe_gapped_unit_cache(le, dasz, info, abbrev, types, secs, walked):
+    """On a FRESH object: enter the first and the last unit of .debug_info into the unit cache by exact offset
+    (get_CU_at: what a client following aranges / pubnames entries does), leaving the units between them unparsed, then
+    resolve section-relative references (DW_FORM_ref_addr: dwarfinfo.get_DIE_from_refaddr) to entries of the units IN THE
+    GAP.  Each must be the entry the sequential walk reported at that offset, in its own unit (the walk is compared with
+    the description).  A seeded fast path in get_CU_containing that assumed a contiguous cache was missed by this check
+    while units were only ever entered in order.  Mismatch -> AssertionError; failures of the probe itself are ignored."""
+    units = walked['info']['units']
+    if walked['info']['end'] is not None or len(units) < 3:
+        return
+    di = mk_dwarfinfo(le, dasz, info, abbrev, types, secs)
+    offs = [u['hdr'][0] for u in units]
+    try:
+        di.get_CU_at(offs[-1])
+        di.get_CU_at(offs[0])
+    except Exception:       # noqa: BLE001
+        return
+    for u in units[1:-1]:
+        if 'ok' not in u['dies']:
+            continue
+        for c in [c for c in u['dies']['ok'] if c[2] != 0][:4]:
+            try:
+                d = di.get_DIE_from_refaddr(c[0])
+                got = [d.cu.cu_offset, d.offset, d.abbrev_code]
+            except Exception as e:      # noqa: BLE001
+                got = classify_exception(e)
+            if got != [u['hdr'][0], c[0], c[2]]:
+                raise AssertionError('gapped unit cache: the reference to offset %d resolves to %r; the sequential walk has the entry '
+                                     '(unit %d, code %d) there' % (c[0], got, u['hdr'][0], c[2]))
+
+
 def impl_world(le, dasz, info, abbrev, types, secs):
     di = mk_dwarfinfo(le, dasz, info, abbrev, types, secs)
     out = {}
@@ -612,6 +643,7 @@ def probe_world(le, dasz, info, abbrev, types, secs, walked):
     on a malformed one (e.g. a DW_AT_sibling that lies) the walk and the ancestor search may legitimately disagree"""
     try:
         probe_random_access_parents(le, dasz, info, abbrev, types, secs, walked)
+        probe_gapped_unit_cache(le, dasz, info, abbrev, types, secs, walked)
     except AssertionError as e:
         return str(e)
     return None
